@@ -119,11 +119,11 @@ theorem c07_alive_dies_only_by_callback {S : List Nat} {p : Policy} (h : Reach S
     (hna : (p.node old).st ≠ .alive) : Ek p (add p id) ∧ Ek p (update p id old) ∧ Ek p (evictNodes p) :=
   ⟨ek_add id (reach_inv h), ek_update old (reach_inv h) hs hna, ek_evictNodes (reach_inv h)⟩
 
-/-- C06 / C07: the converse of `c07_alive_dies_only_by_callback` — whatever the add event and the eviction pass put on the callback
+/-- C06 / C07: the converse of `c07_alive_dies_only_by_callback` — whatever the add event, the update event and the eviction pass put on the callback
     list is dead afterwards (and nodes only die), so a node handed to the callback is never mapped again -/
-theorem c07_callback_nodes_are_dead {S : List Nat} {p : Policy} (h : Reach S p) (id : Nat) :
-    DE p (add p id) ∧ DE p (evictNodes p) :=
-  ⟨de_add id (reach_inv h), de_evictNodes (reach_inv h)⟩
+theorem c07_callback_nodes_are_dead {S : List Nat} {p : Policy} (h : Reach S p) (id old : Nat) (hs : id ∉ S) :
+    DE p (add p id) ∧ DE p (update p id old) ∧ DE p (evictNodes p) :=
+  ⟨de_add id (reach_inv h), de_update old (reach_inv h) hs, de_evictNodes (reach_inv h)⟩
 
 /-- C07: **Overflow only if the total weight of the entries mapped AT THAT MOMENT exceeds the maximum** — inside one eviction
     pass, started from a state reached by any sequential history: every node handed to the eviction callback is removed from a
